@@ -31,8 +31,12 @@ import (
 
 // fakeClient is a group.Client whose callbacks can block: the yield points of the schedule harness.
 type fakeClient struct {
-	id, user string
-	perms    []string
+	id string
+	// the harness lets a kicked fake leave asynchronously (Kick) while the same object joins again: its own fields
+	// must not be what the race detector reports
+	fmu   sync.Mutex
+	user  string
+	perms []string
 	g        atomic.Pointer[group.Group]
 	// hooks: called (if set) at the start of the callback
 	onPermissions func()
@@ -53,13 +57,23 @@ func (c *fakeClient) GetStats() *stats.Client {
 func (c *fakeClient) Group() *group.Group          { return c.g.Load() }
 func (c *fakeClient) Addr() net.Addr               { return nil }
 func (c *fakeClient) Id() string                   { return c.id }
-func (c *fakeClient) Username() string             { return c.user }
-func (c *fakeClient) Init(u string, p []string)    { c.user = u; c.perms = p }
+func (c *fakeClient) Username() string {
+	c.fmu.Lock()
+	defer c.fmu.Unlock()
+	return c.user
+}
+func (c *fakeClient) Init(u string, p []string) {
+	c.fmu.Lock()
+	defer c.fmu.Unlock()
+	c.user, c.perms = u, p
+}
 func (c *fakeClient) Data() map[string]interface{} { return nil }
 func (c *fakeClient) Permissions() []string {
 	if c.onPermissions != nil {
 		c.onPermissions()
 	}
+	c.fmu.Lock()
+	defer c.fmu.Unlock()
 	return c.perms
 }
 func (c *fakeClient) PushConn(g *group.Group, id string, up conn.Up, tracks []conn.UpTrack, replace string) error {
